@@ -18,7 +18,7 @@ ASSUMPTIONS = [
     "finite alphabets for alpha, h/b and planforms; nx<=4, half ny<=4, <=2 surfaces",
     "reference solver oasmc/ref/ref_vlm.py; OpenMDAO/NumPy/SciPy trusted",
 ]
-BOUND = {"quick": "nx<=3 (+ one planform with nx=4), half ny<=3, h/b in {0.1,0.25,1,5}", "thorough": "nx<=4, half ny<=4, h/b in {0.05,0.1,0.25,1,5,20}"}
+BOUND = {"quick": "nx<=3 (+ one planform with nx=4, two production-size lattices of 66 / 68 panels), half ny<=3, alpha in {0,5,12,-4}, h/b in {0.005,0.1,0.25,1,5}", "thorough": "nx<=4, half ny<=4, h/b in {0.005,0.02,0.05,0.1,0.25,1,5,20}"}
 TOL = 1e-9
 SPAN = 8.0
 
